@@ -758,6 +758,31 @@ func (h *Handle) Execute() {
 	for _, m := range matched {
 		res.Matched = append(res.Matched, m.RuleName)
 	}
+	if r.mode == "fetch" && sc.Property == "C11" && len(matched) > 0 && panicked == nil && r.aborted == "" {
+		// the caller keeps the returned slice: later calls (unjudged) must not reach into it
+		r.muted = true
+		func() {
+			defer func() { _ = recover() }()
+			eng2 := &engine.GruleEngine{MaxCycle: sc.Knobs.MaxCycle} // no listeners: these calls are not judged
+			_, _ = eng2.FetchMatchingRules(dctx, kb)
+			_ = eng2.Execute(dctx, kb)
+			_, _ = eng2.FetchMatchingRules(dctx, kb)
+		}()
+		r.muted = false
+		var now []string
+		for _, m := range matched {
+			if m == nil {
+				now = append(now, "<nil>")
+			} else {
+				now = append(now, m.RuleName)
+			}
+		}
+		res.Probes["fetch.result-reinspected-after-later-calls"]++
+		if strings.Join(now, ",") != strings.Join(res.Matched, ",") {
+			r.violate("C11.result-changed-by-later-call", fmt.Sprintf("FetchMatchingRules returned [%s]; after a later Fetch, Execute and Fetch on the same instance the very same slice reads [%s]: the result handed to the caller is storage the engine keeps using",
+				strings.Join(res.Matched, ","), strings.Join(now, ",")))
+		}
+	}
 }
 
 // normName hides the identifier part of a tombstone name: it is an id, not behaviour.
